@@ -119,6 +119,21 @@ def check_assumptions(prop_file):
     return r.returncode == 0, closed, axioms, out
 
 
+def run_coqchk(prop_file, timeout=1800):
+    """Independent re-check of Props/Cxx.vo and everything it depends on; returns (ok, axioms summary)."""
+    mod = "V.Props." + prop_file[:-2]
+    try:
+        r = subprocess.run(["timeout", str(timeout), "coqchk", "-silent", "-o"] + COQ_FLAGS + [mod], cwd=COQ,
+                           capture_output=True, text=True)
+    except Exception as e:
+        return False, str(e)
+    out = r.stdout + r.stderr
+    m = re.search(r"\* Axioms:(.*?)\n\s*\n\* Constants/Inductives relying on type-in-type:(.*?)\n", out, flags=re.S)
+    summary = " ".join((m.group(1) + " | type-in-type:" + m.group(2)).split()) if m else out[-300:]
+    ok = r.returncode == 0 and m is not None and m.group(1).strip() == "<none>" and m.group(2).strip() == "<none>"
+    return ok, summary
+
+
 # ---------------------------------------------------------------- running the model in Coq
 def z(n):
     """Gallina literal for a Python int (Z scope)."""
